@@ -8,12 +8,14 @@ use serde::{Deserialize, Serialize};
 pub enum Scenario {
     Rt(crate::fam_rt::RtScn),
     HistW(crate::fam_histw::HwScn),
+    FakeOffer(crate::fam_histw::FakeOfferScn),
     Crash(crate::fam_crash::CrashScn),
     CrashPath(crate::fam_crash::CrashPathScn),
     WFault(crate::fam_wfault::WfScn),
     RFault(crate::fam_rfault::RfScn),
     Corrupt(crate::fam_corrupt::CorScn),
     Foreign(crate::fam_foreign::ForScn),
+    Sparse(crate::fam_foreign::SparseScn),
     HistR(crate::fam_histr::HrScn),
     Pair(crate::fam_pair::PairScn),
 }
@@ -23,12 +25,14 @@ impl Scenario {
         match self {
             Scenario::Rt(_) => "RT",
             Scenario::HistW(_) => "HIST-W",
+            Scenario::FakeOffer(_) => "HIST-W-USER-SHAPE",
             Scenario::Crash(_) => "CRASH",
             Scenario::CrashPath(_) => "CRASH-PATH",
             Scenario::WFault(_) => "WFAULT",
             Scenario::RFault(_) => "RFAULT",
             Scenario::Corrupt(_) => "CORRUPT",
             Scenario::Foreign(_) => "FOREIGN",
+            Scenario::Sparse(_) => "FOREIGN-SPARSE",
             Scenario::HistR(_) => "HIST-R",
             Scenario::Pair(_) => "PAIR",
         }
@@ -40,12 +44,14 @@ pub fn execute(s: &Scenario, ctx: &mut Ctx) {
     match s {
         Scenario::Rt(x) => crate::fam_rt::execute(x, ctx),
         Scenario::HistW(x) => crate::fam_histw::execute(x, ctx),
+        Scenario::FakeOffer(x) => crate::fam_histw::execute_fake(x, ctx),
         Scenario::Crash(x) => crate::fam_crash::execute(x, ctx),
         Scenario::CrashPath(x) => crate::fam_crash::execute_path(x, ctx),
         Scenario::WFault(x) => crate::fam_wfault::execute(x, ctx),
         Scenario::RFault(x) => crate::fam_rfault::execute(x, ctx),
         Scenario::Corrupt(x) => crate::fam_corrupt::execute(x, ctx),
         Scenario::Foreign(x) => crate::fam_foreign::execute(x, ctx),
+        Scenario::Sparse(x) => crate::fam_foreign::execute_sparse(x, ctx),
         Scenario::HistR(x) => crate::fam_histr::execute(x, ctx),
         Scenario::Pair(x) => crate::fam_pair::execute(x, ctx),
     }
